@@ -812,7 +812,9 @@ def timing_source_rule(ctx: Ctx) -> None:
     okl = len(loops) == 1 and list(loops)[0][1] == "CHART_TIMING_PROPERTIES"
     lv = list(loops)[0][0] if loops else "?"
     hits = [k for k in keys if lv in {n.id for n in ast.walk(ast.parse(k, mode="eval")) if isinstance(n, ast.Name)}]
-    okv = len(vers) == 1 and vers[0] in (f"{thr!r} <= float({sf}.version or '0')",)
+    from ..decide import key as _ckey
+    VER = f"float({sf}.version or '0') >= {thr!r}"
+    okv = len(vers) == 1 and vers[0] == _ckey(VER)
     ctx.expect("R-TABLE", f, "the version test is float(version or '0') >= SSC_VERSION_SPLIT_TIMING", okv, str(vers),
                f"version condition(s): {vers} - the documented rule is 'version 0.7 or later' (absent/empty version counts as 0)", node=f.node) if vers else None
     oka = okl and hits == [f"{lv}.__get__({ch})"]
@@ -821,7 +823,7 @@ def timing_source_rule(ctx: Ctx) -> None:
     if len(vers) != 1 or len(hits) != 1:
         raise AnalysisError(f"{f.fq}: the version / chart-timing conditions are not recognised (found {vers} / {hits})")
     judge(ctx, "R-TABLE", f, "the chart is the source exactly under: SSC simfile and SSC chart and version >= 0.7 and any non-empty chart timing property; otherwise the simfile",
-          decs, [a_sim, a_chart, vers[0], hits[0]], lambda a: f"return {ch} [leaving the loop at this element]" if all(a.values()) else f"return {sf}")
+          decs, [a_sim, a_chart, VER, hits[0]], lambda a: f"return {ch} [leaving the loop at this element]" if all(a.values()) else f"return {sf}")
 
 
 def single_source(ctx: Ctx) -> None:
